@@ -31,8 +31,15 @@ MANIFEST_ENTRY = {
 PY = core.PYTHONS["3.11"]
 
 # known behavioural differences between the transpiled script and the bytecode on corpus programs (recorded, not fixed);
-# id -> list of corpus file names (relative to the repository)
-BEHAVIOUR_FINDINGS = {}
+# id (known_findings.json) -> {corpus file (relative to the repository): recorded outcome}
+BEHAVIOUR_FINDINGS = {
+    'C17-stmt-in-expr-position': {'examples/record.er': 'invalid-python', 'examples/with.er': 'invalid-python', 'tests/should_ok/coercion.er': 'invalid-python', 'tests/should_ok/mut_dict.er': 'invalid-python', 'tests/should_ok/assert_cast.er': 'invalid-python', 'tests/should_ok/return.er': 'invalid-python'},
+    'C17-attr-assign-wrapped': {'examples/a11y.er': 'invalid-python', 'tests/should_ok/class_attr.er': 'invalid-python'},
+    'C17-class-and-trait': {'examples/impl.er': 'differs', 'examples/structural.er': 'differs', 'examples/trait.er': 'differs', 'tests/should_ok/structural.er': 'differs'},
+    'C17-name-mangling': {'examples/dict.er': 'differs', 'examples/quantified.er': 'differs', 'examples/iterator.er': 'differs', 'examples/patch.er': 'differs', 'tests/should_ok/comment.er': 'differs', 'tests/should_ok/sym_op.er': 'differs'},
+    'C17-call-arguments': {'tests/should_ok/args_expansion.er': 'differs', 'tests/should_ok/var_args.er': 'differs', 'tests/should_ok/var_kwargs.er': 'differs', 'tests/should_ok/default_param.er': 'differs'},
+    'C17-type-objects': {'tests/should_ok/dyn_type_check.er': 'differs', 'tests/should_ok/map.er': 'differs'},
+}
 
 
 def nontrivial(row):
@@ -40,7 +47,7 @@ def nontrivial(row):
     return "\\\\" in row[1] or "_" in row[1] or "0x" in row[1] or "(lit NatLit \"0" in row[1]
 
 
-def run_cmd(cmd, cwd, env, timeout=60):
+def run_cmd(cmd, cwd, env, timeout=240):
     rc, out, err = core.sh(cmd, cwd=cwd, env=env, timeout=timeout, input="")
     return rc, out, err
 
@@ -167,6 +174,8 @@ def one_program(erg, env, work, name, src, path):
     rs, os_, es = run_cmd([PY, stem + ".py"], d, env)
     det = {"script_is_valid_python": rcc == 0, "compile_error": ec[-600:] if rcc != 0 else "", "script_stdout": os_[-1500:], "script_exit": rs,
            "script_stderr": es[-800:], "bytecode_stdout": ob[-1500:], "bytecode_exit": rb, "bytecode_stderr": eb[-800:]}
+    if 124 in (rcc, rb, rs):
+        return "skipped", det       # a timeout under machine load is not an observation
     if rcc != 0:
         return "invalid-python", det
     if os_ == ob and rs == rb:
